@@ -37,7 +37,10 @@ type c18Offer struct {
 	start     int64 // 0 = none
 	immediate bool
 	exclusive bool
-	si        *SweeperInput
+	// extraBudget is the input's additive share of the aux sweeper's
+	// ExtraBudgetForInputs (only for blob-carrying inputs, aux mode).
+	extraBudget int64
+	si          *SweeperInput
 }
 
 func (o *c18Offer) inputWeight() int64 {
@@ -47,7 +50,8 @@ func (o *c18Offer) inputWeight() int64 {
 }
 
 func c18DrawOffers(t *rapid.T, height int32, relay, maxRate int64,
-	f2Known bool, st *vstats.Collector, serial *int) []*c18Offer {
+	f2Known bool, st *vstats.Collector, serial *int,
+	aux *c18Aux, extraVal int64) []*c18Offer {
 
 	n := rapid.IntRange(1, 10).Draw(t, "nOffers")
 	lockMode := 0
@@ -76,10 +80,29 @@ func c18DrawOffers(t *rapid.T, height int32, relay, maxRate int64,
 			m.value += 400
 			m.reqValue = m.value
 		}
+		// Aux mode: outputs of a custom channel carry a blob (wallet
+		// utxos and anchors never do), and the aux sweeper grants some of
+		// them an extra budget.
+		var extraBudget int64
+		if aux != nil && m.blobEligible() &&
+			rapid.IntRange(0, 9).Draw(t, "blob") < 6 {
+
+			m.blob = true
+			if rapid.Bool().Draw(t, "hasExtraBudget") {
+				extraBudget = rapid.Int64Range(1, 2000).Draw(
+					t, "extraBudget")
+			}
+		}
 		*serial++
 		c18BuildInput(m, *serial)
+		if aux != nil {
+			aux.setFact(m.op, c18AuxFact{
+				blob: m.blob, extraVal: extraVal,
+				extraBudget: extraBudget,
+			})
+		}
 
-		o := &c18Offer{m: m}
+		o := &c18Offer{m: m, extraBudget: extraBudget}
 		o.deadline = deadlines[rapid.IntRange(0, 2).Draw(t, "dl")]
 		o.immediate = rapid.IntRange(0, 5).Draw(t, "immediate") == 0
 		o.exclusive = rapid.IntRange(0, 11).Draw(t, "exclusive") == 0
@@ -201,7 +224,9 @@ func c18SetOracle(set InputSet, byOp map[wire.OutPoint]*c18Offer,
 		}
 		used[in.OutPoint()] = true
 		offers = append(offers, o)
-		budget += o.budget
+		// Documented: the set budget is the inputs' budgets plus the
+		// aux sweeper's (additive) extra budget for them.
+		budget += o.budget + o.extraBudget
 		if o.start > start {
 			start = o.start
 		}
@@ -248,6 +273,9 @@ func c18SetOracle(set InputSet, byOp map[wire.OutPoint]*c18Offer,
 func c18NeedWallet(offers []*c18Offer, walletVals []int64) bool {
 	var need, borrowable int64
 	for _, o := range offers {
+		// The extra budget is granted on top of the inputs' own budgets:
+		// it has to come out of somebody's value as well.
+		need += o.extraBudget
 		if o.m.kind.reqOut {
 			need += o.budget
 		} else {
@@ -280,9 +308,20 @@ func TestVerifC18Aggregator(t *testing.T) {
 			t, "maxInputs")
 		change := rapid.SampledFrom(c18Change).Draw(t, "change")
 
+		// A third of the cases: custom channels, i.e. an aux sweeper on
+		// the aggregator and the publisher.
+		var (
+			aux      *c18Aux
+			extraVal int64
+		)
+		if rapid.IntRange(0, 2).Draw(t, "auxMode") == 0 {
+			aux = newC18Aux()
+			extraVal = rapid.Int64Range(330, 1000).Draw(t, "extraVal")
+		}
+
 		serial := 0
 		offers := c18DrawOffers(t, height, relay, maxRate, f2Known, st,
-			&serial)
+			&serial, aux, extraVal)
 
 		// Wallet utxos for top-ups.
 		nu := rapid.IntRange(0, 4).Draw(t, "nUtxos")
@@ -319,10 +358,13 @@ func TestVerifC18Aggregator(t *testing.T) {
 			walletModel[op] = &c18Input{kind: k, op: op, value: v}
 		}
 
-		h := newC18Harness(est, height, false)
+		h := newC18HarnessAux(est, height, false, aux)
 		h.wallet.utxos = utxos
-		agg := NewBudgetAggregator(est, uint32(maxInputs),
-			fn.None[AuxSweeper]())
+		auxOpt := fn.None[AuxSweeper]()
+		if aux != nil {
+			auxOpt = fn.Some[AuxSweeper](aux)
+		}
+		agg := NewBudgetAggregator(est, uint32(maxInputs), auxOpt)
 
 		var (
 			labels      = []string{"est:" + estKind}
@@ -448,10 +490,11 @@ func TestVerifC18Aggregator(t *testing.T) {
 					deadline:  set.DeadlineHeight(),
 					immediate: set.Immediate(),
 					values:    make(map[wire.OutPoint]int64),
+					aux:       aux != nil, extraVal: extraVal,
 				}
 				for _, o := range so {
 					r.ins = append(r.ins, o.m)
-					r.budget += o.budget
+					r.budget += o.budget + o.extraBudget
 				}
 				r.ins = append(r.ins, added...)
 				for _, m := range r.ins {
@@ -469,6 +512,12 @@ func TestVerifC18Aggregator(t *testing.T) {
 				r.weight, werr = c18Weight(r.ins, change.pk)
 				if werr != nil {
 					t.Fatalf("weight: %v", werr)
+				}
+				if r.hasExtra() {
+					// From the generated facts: some input of the
+					// set (offered, or topped up) carries a blob.
+					r.weight += c18ExtraOutWeight
+					r.sumReq += r.extraVal
 				}
 				if r.budget < 1 {
 					// ClusterInputs lets zero budgets through only
@@ -618,6 +667,13 @@ func TestVerifC18Aggregator(t *testing.T) {
 		for _, r := range h.reqs {
 			rejections += r.rejections
 			pubs += len(r.pubs)
+			labels = append(labels, r.auxClass())
+			if r.aux && r.rampChecked {
+				labels = append(labels, r.auxClass()+":ramp_checked")
+			}
+			if r.aux && len(r.pubs) > 0 {
+				labels = append(labels, r.auxClass()+":published")
+			}
 			for _, e := range r.events {
 				labels = append(labels, "event:"+e.String())
 			}
@@ -658,10 +714,11 @@ func TestVerifC18Aggregator(t *testing.T) {
 
 		nontrivial := pubs > 0 && (rejections > 0 || topUps > 0 ||
 			multiInput > 0)
-		fpParts := []any{relay, estKind, height, maxRate, maxInputs}
+		fpParts := []any{relay, estKind, height, maxRate, maxInputs,
+			aux != nil, extraVal}
 		for _, o := range offers {
 			fpParts = append(fpParts, o.m.kind.name, o.m.value,
-				o.budget, o.deadline, o.start)
+				o.budget, o.deadline, o.start, o.m.blob, o.extraBudget)
 		}
 		var sample any
 		if nontrivial && st.WantSample() {
